@@ -1,3 +1,4 @@
+import RsyncModel.Gen.FlistConds
 import RsyncModel.PureTie
 import RsyncModel.FlistThm
 import RsyncModel.RoundTrip
@@ -80,5 +81,14 @@ theorem source_long_threshold (v : Int64) :
     Gen.Pure.int64Short v.toInt false = decide (0 ≤ v ∧ v ≤ 0x7FFFFFFF) ∧
     Gen.Pure.int64ShortBuf v.toInt false = Gen.Pure.int64Short v.toInt false :=
   ⟨PureTie.int64Short_tied v, PureTie.int64ShortBuf_tied v.toInt⟩
+
+
+/-- **Regenerated fact**: both sides order the list with the *same* sort function and the same
+comparison (`sort.Slice`, `<` on the name). `same_numbering` needs distinct names because that sort is
+not stable; for lists with equal names (several sources naming the same file) the two sides still
+agree as long as they run the same deterministic algorithm on the same wire order — which is what
+this fact pins. A stable sort on one side only numbers equal names differently. -/
+theorem both_sides_sort_alike :
+    Gen.FlistConds.senderSort = Gen.FlistConds.receiverSort ∧ Gen.FlistConds.senderSort = "sort.Slice by <;" := by decide
 
 end C15
